@@ -19,6 +19,11 @@ _OLD_ORDER = ["class", "pass", "assert", "async", "await", "break", "continue", 
 _PY = [k for k in _keyword.kwlist if k == k.lower() and k not in EXPRESS_RESERVED_PY]
 PY_KEYWORDS = [k for k in _OLD_ORDER if k in _PY] + [k for k in _PY if k not in _OLD_ORDER]
 PY_BUILTINS = ["property", "len", "id", "object", "str", "int", "print", "sys", "float", "dict", "none"]
+# identifiers that look like the generator's own naming scheme (constructor parameters `inherited<i>__<name>`) or like
+# names of the runtime's base classes: legal EXPRESS identifiers, legal Python names (seeded C18-e2).  `inherited9__zz`
+# cannot collide with a real inherited parameter (no attribute is called zz).
+NAMING_SCHEME = ["inherited", "inherited_from", "inheritedx", "inherited1", "inherited9__zz", "a__b", "x__", "scope", "count", "keys"]
+PY_BUILTINS = PY_BUILTINS + NAMING_SCHEME
 
 
 def agg_levels(body):
@@ -398,6 +403,17 @@ def fixed_shapes():
         s.types.append(TypeDef(kw, ("simple", "REAL")))
         e = Entity("e1", []); e.attrs = [Attr("a1", "e", kw)]; s.entities.append(e)
         out.append(s)
+    # attribute names that look like the generator's own parameter names / the runtime's names (seeded C18-e2)
+    s = Schema("naming")
+    for n, sup, at in [("a", [], ["x", "inherited", "a__b"]), ("b", ["a"], ["inherited_from", "inherited1", "scope", "count"]),
+                       ("c", ["b"], ["inherited9__zz", "inheritedx", "keys", "x__"])]:
+        e = Entity(n, sup); e.attrs = [Attr(x, "e", "INTEGER") for x in at]; s.entities.append(e)
+    out.append(s)
+    # ... and the one that collides exactly: an own attribute called like the first inherited parameter
+    s = Schema("namingclash")
+    for n, sup, at in [("a", [], ["x"]), ("b", ["a"], ["inherited0__x"])]:
+        e = Entity(n, sup); e.attrs = [Attr(x, "e", "INTEGER") for x in at]; s.entities.append(e)
+    out.append(s)
     # below a diamond: an entity whose (first attribute-bearing) supertype is the bottom of a diamond - the shared ancestor's
     # attributes arrive once per path inside ONE supertype's attribute list (seeded C18-c2)
     for nm, e_sup, f_sup in (("belowdiamond", ["d"], ["e"]), ("belowdiamond2", ["marker", "d"], ["marker", "e"])):
